@@ -43,6 +43,11 @@ Ctx1(cl) == [calc |-> cl, lang |-> "en", today |-> 0, env |-> EmptyEnv]
 GInit == /\ calc = Calc0 /\ sess = <<>> /\ run = NoRun /\ today = 0 /\ last = [call |-> "none"] /\ hist = <<>>
          /\ \/ (mode = "line"  /\ \E l \in Lines1 : c = [pre |-> <<>>, line |-> l, expected |-> LineMeaning(Ctx1(Calc0), l).slot])
             \/ (mode = "linex" /\ \E l \in LinesX : c = [pre |-> Exact3, line |-> l, expected |-> LineMeaning(Ctx1(CalcX), l).slot])
+            \* RateFrame on the code: after update_currency(x, 2) for any configured currency x, every rated currency y converts
+            \* with its own rate - the configured one unless y = x
+            \/ (mode = "frame" /\ \E x \in SeqSet(Consts.codes) : \E y \in Rated :
+                    LET l == [form |-> "money_conv", x |-> O(QInt(10), y), target |-> "usd"] IN
+                    c = [pre |-> <<[cur |-> x, q |-> QInt(2)]>>, line |-> l, expected |-> LineMeaning(Ctx1(SetRate(Calc0, x, QInt(2))), l).slot])
             \/ (mode = "hist"  /\ c = [pre |-> <<>>])
 GNext ==
   /\ mode = "hist" /\ Len(hist) < MaxDepth /\ UNCHANGED <<mode, c>>
@@ -53,7 +58,7 @@ GNext ==
           /\ hist' = Append(hist, [call |-> "execute", line |-> HLines[i], expected |-> LineMeaning(Ctx1(calc), HLines[i]).slot])
           /\ last' = [call |-> "execute", status |-> TRUE, slots |-> <<>>, lines |-> <<>>]
           /\ UNCHANGED <<calc, sess, run, today>>
-Emit == CASE mode \in {"line", "linex"} -> PrintT(<<"CASE", ToJson([kind |-> "line"] @@ c)>>)
+Emit == CASE mode \in {"line", "linex", "frame"} -> PrintT(<<"CASE", ToJson([kind |-> "line"] @@ c)>>)
           [] mode = "hist" /\ Len(hist) = MaxDepth -> PrintT(<<"CASE", ToJson([kind |-> "hist", hist |-> hist])>>)
           [] OTHER -> TRUE
 \* design-level: update_currency changes exactly the one rate (RateFrame) and evaluation never changes calc
